@@ -22,13 +22,16 @@ PROP = dict(
                   "`chewing-cli info` (metadata given with -n/-c/-l/-r is reported by both back ends, text and JSON) is checked by "
                   "the oracle only, not modelled",
                   "clap argument parsing, process plumbing and file I/O of the tool (driven with valid flags)",
-                  "the trie file format (C11) and SQLite (C09) are abstracted to entry lists: insert semantics, enumeration "
-                  "order and lookup order are modelled and compared with the real files on every run, not derived from bytes",
-                  "slice::sort_by: for the leaves of well-formed sources the model does not depend on the algorithm "
-                  "(leaf_sort_single: the comparator says Equal throughout, so stability alone fixes the result; "
-                  "leaf_sort_multi_unique: a total order, every sorting algorithm agrees); only leaves mixing one-character and "
-                  "longer phrases (F27 length-mismatch; comparator not a total order before the pending trie fix) rely on the "
-                  "model being the insertion sort std uses for <= 20 elements"],
+                  "SQLite (C09) is abstracted to rows: INSERT OR REPLACE, enumeration order and lookup order are modelled and compared with "
+                  "the real files on every run, not derived from bytes. The TRIE back end is derived from C11's byte-level model (section 6 "
+                  "of Props/C20.lean, Proofs/CliTrieLink.lean): insert semantics, lookup order, the set of enumerated records and no 16-bit "
+                  "overflow are theorems (trie_backend_linked); only the ORDER in which Trie::entries visits the keys (trieOrder: depth first, "
+                  "each chain of nested keys deepest first) is still modelled + compared on every run (C11 proves it up to permutation)",
+                  "slice::sort_by is only assumed to be SOME stable sort: leaf_sort_stable_unique - on Rust strings the comparator "
+                  "(regenerated arm Gen.trieMixedCmp = the total preorder of trie fix ddfe893, identified with C11's phraseLt through "
+                  "Utf8Order.lexLt_utf8Enc: UTF-8 preserves order) is a total preorder, so every sorted + stable arrangement of a leaf, mixed "
+                  "leaves included, is the model's phraseSort (leaf_sort_single / leaf_sort_multi_unique are the earlier special cases); "
+                  "leaf_sort_is_C11: phraseSort = C11's sortLeaf"],
     assumptions=["text is modelled as a list of code points; sources are bytes only at the entrance (readRawLines / compileRaw: "
                  "strict UTF-8 decoding per line), where a line that is not valid UTF-8 ends the run (F45)",
                  "known findings: F27 (no-syllables, length-mismatch, empty-phrase, phrase-whitespace, word-freq-unchecked: malformed lines the "
@@ -61,15 +64,17 @@ MANIFEST = dict(
          "dump texts and library lookups (original and recompiled file) are recomputed by the model; the harness oracle "
          "evaluates the property statement directly and classifies every failure exactly (known class or new).",
     note="Trusted: Lean kernel (axioms propext, Classical.choice, Quot.sound only), tools/extract.py, the harness and the "
-         "compiled model driver; clap, process plumbing, `info` metadata pass-through (oracle only). The trie and SQLite storage "
-         "layers are NOT derived from bytes here: the model assumes of the trie file exactly (a) insert = replace same "
-         "(key, phrase text) else append, (b) entries() = depth-first over keys sorted by syllable code with each chain of "
-         "nested keys emitted deepest first, each leaf stably sorted by the write() comparator, (c) lookup = the leaf in stored "
-         "order, (d) no 16-bit length overflow (leaf < 64 KiB, < 65536 children); and of SQLite INSERT OR REPLACE, primary-key "
-         "enumeration and ORDER BY sort_id, freq DESC, phrase DESC. These are validated by correspondence on every run; their "
-         "byte-level justification belongs to C11 (Der/TrieCodec: (a) insert_semantics / reinsert_replaces / builder_is_map, "
-         "(b) entries_correct, (c) lookup_correct + order_single_leaf / order_multi_leaf, (d) writes_within_limits) and C09; "
-         "the two models are not yet connected by a theorem.",
+         "compiled model driver; clap, process plumbing, `info` metadata pass-through (oracle only). TRIE storage layer: the "
+         "four things the entry-list model assumes of the trie file are now connected to C11's byte-level theorems (Props/C20.lean section 6): "
+         "(a) insert = replace same (key, phrase text) in place else append - THEOREM lookup_trieBuild from C11.builder_is_map / insert_semantics; "
+         "(c) lookup = the leaf stably sorted by the write() comparator - THEOREM trie_backend_linked (real reader's lookup_all_phrases of the "
+         "written bytes = dictLookup .trie, same order) from C11.lookup_correct + leaf_sort_is_C11; (d) no 16-bit length overflow - THEOREM "
+         "(C11.writes_within_limits: inside Fits write succeeds, outside it returns Err, never truncates); (b) entries(): the SET of enumerated "
+         "records (each last record per (syllables, phrase) once) is a THEOREM from C11.entries_correct, the ORDER of the keys (depth-first, "
+         "nested keys deepest first = trieOrder) REMAINS modelled + validated by correspondence (C11 proves it up to permutation). "
+         "recompiled_lookup_trie_linked / wellformed_source_roundtrip_linked restate the round trip for the two CONCRETE byte files (hypotheses: "
+         "records valid for the Rust types, both writes returned Ok). SQLite: INSERT OR REPLACE, primary-key enumeration and ORDER BY sort_id, "
+         "freq DESC, phrase DESC remain modelled at row level and validated by correspondence on every run (C09's relational reading).",
     technique="Lean 4 proof (induction over lines / entry lists, sorted-permutation uniqueness, stable-sort idempotence for an "
               "asymmetric comparator, kernel-evaluated witnesses) over a translator-regenerated model; sampled "
               "model/implementation correspondence through the real command-line binary",
